@@ -1220,6 +1220,95 @@ impl<'a> MCtx<'a> {
         Some(Mutant { doc, label: self.label("5.5.2.3", &class, "impossible-spread") })
     }
 
+    /// A spread that can never apply between ANY two composite types of the schema whose possible-type sets (object
+    /// types only) are disjoint — the nine kind combinations get equal weight (interface-in-interface twice), and of
+    /// two interfaces those that only another INTERFACE implements together are preferred. The host scope of type P
+    /// is reached through fields from a query root (fresh alias) or is an unspread fragment on P; the narrowing to T
+    /// is an inline fragment, a named fragment, an inline fragment inside a named fragment on P, or a named fragment
+    /// under an untyped inline fragment (depth).
+    pub fn impossible_spread_between_types(&mut self) -> Option<Mutant> {
+        if self.only_def.is_some() {
+            return None;
+        }
+        let m = self.sch.m;
+        let comps: Vec<(String, TypeKind, BTreeSet<String>)> = m
+            .types()
+            .filter(|t| matches!(t.kind, TypeKind::Object | TypeKind::Interface | TypeKind::Union))
+            .map(|t| (t.name.clone(), t.kind, m.possible_types(&t.name).into_iter().collect()))
+            .collect();
+        let joined = |a: &str, b: &str| m.types().any(|t| t.kind == TypeKind::Interface && t.implements.iter().any(|i| i.0 == a) && t.implements.iter().any(|i| i.0 == b));
+        let mut groups: BTreeMap<(String, String), Vec<(String, String, bool)>> = BTreeMap::new();
+        for (p, pk, pp) in &comps {
+            if pp.is_empty() {
+                // an interface nobody implements as the SCOPE: every narrowing is "impossible" by the letter of the rule
+                continue;
+            }
+            for (t, tk, tp) in &comps {
+                if p != t && pp.is_disjoint(tp) {
+                    let j = *pk == TypeKind::Interface && *tk == TypeKind::Interface && joined(p, t);
+                    groups.entry((format!("{pk:?}"), format!("{tk:?}"))).or_default().push((p.clone(), t.clone(), j));
+                }
+            }
+        }
+        let mut keys: Vec<(String, String)> = groups.keys().cloned().collect();
+        if keys.is_empty() {
+            return None;
+        }
+        if let Some(ii) = keys.iter().find(|k| k.0 == "Interface" && k.1 == "Interface").cloned() {
+            keys.push(ii);
+        }
+        let key = keys[self.rng.below(keys.len())].clone();
+        let mut pairs = groups[&key].clone();
+        if pairs.iter().any(|x| x.2) && self.rng.chance(2, 3) {
+            pairs.retain(|x| x.2);
+        }
+        let (p, t, j) = pairs[self.rng.below(pairs.len())].clone();
+        let mut doc = self.doc.clone();
+        let spread = |n: &str| Sel::Spread { name: n.into(), name_pos: p0(), dirs: vec![], pos: p0() };
+        let frag = |n: &str, on: &str, sel: Vec<Sel>| ExecDef::Frag(FragDef { name: n.into(), name_pos: p0(), cond: on.into(), cond_pos: p0(), dirs: vec![], sel, pos: p0() });
+        let inline_t = Sel::Inline { cond: Some((t.clone(), p0())), dirs: vec![], sel: vec![Sel::field("__typename")], pos: p0() };
+        // what stands inside the P-typed scope
+        let form = self.rng.below(4);
+        let (inner, form_name): (Vec<Sel>, &str) = match form {
+            0 => (vec![Sel::field("__typename"), inline_t], "inline"),
+            1 => {
+                doc.defs.push(frag("ZzImpT", &t, vec![Sel::field("__typename")]));
+                (vec![spread("ZzImpT"), Sel::field("__typename")], "spread")
+            }
+            2 => {
+                doc.defs.push(frag("ZzHostP", &p, vec![Sel::field("__typename"), inline_t]));
+                (vec![spread("ZzHostP")], "inline-inside-named-fragment")
+            }
+            _ => {
+                doc.defs.push(frag("ZzImpT", &t, vec![Sel::field("__typename")]));
+                (vec![Sel::Inline { cond: None, dirs: vec![], sel: vec![Sel::field("__typename"), Sel::Inline { cond: Some((p.clone(), p0())), dirs: vec![], sel: vec![spread("ZzImpT")], pos: p0() }], pos: p0() }], "named-fragment-at-depth")
+            }
+        };
+        // the P-typed scope
+        let queries: Vec<usize> = doc.defs.iter().enumerate().filter(|(_, d)| matches!(d, ExecDef::Op(o) if o.kind == OpKind::Query)).map(|(i, _)| i).collect();
+        let path = if self.rng.chance(2, 3) && !queries.is_empty() { field_path(m, &m.query, &p, 4) } else { None };
+        let host = match path {
+            Some(path) => {
+                let mut sel = inner;
+                for (k, f) in path.iter().enumerate().rev() {
+                    let alias = if k == 0 { Some(("zz_imp".to_string(), p0())) } else { None };
+                    sel = vec![Sel::Field { alias, name: f.clone(), name_pos: p0(), args: vec![], dirs: vec![], sel: Some(sel) }];
+                }
+                let qi = queries[self.rng.below(queries.len())];
+                top_sels_mut(&mut doc, qi).extend(sel);
+                "operation"
+            }
+            None => {
+                let at = self.rng.below(doc.defs.len() + 1);
+                doc.defs.insert(at, frag("ZzScopeP", &p, inner));
+                "unspread-fragment"
+            }
+        };
+        // the class names the pair of kinds; where the scope is and how the narrowing is written go into the mutation name
+        let class = format!("between-types/{}-in-{}{}", key.1, key.0, if j { "/joined-only-by-an-interface" } else { "" });
+        Some(Mutant { doc, label: self.label("5.5.2.3", &class, &format!("impossible-spread-between-types({host},{form_name})")) })
+    }
+
     // ---- directives ----
     fn dir_sites(&self) -> Vec<DirSite> {
         self.sites.dirs.iter().filter(|s| self.ok_def(s.def)).cloned().collect()
@@ -1259,7 +1348,7 @@ impl<'a> MCtx<'a> {
     }
 }
 
-pub const MUTATIONS: [&str; 36] = [
+pub const MUTATIONS: [&str; 37] = [
     "rename-field",
     "subselection-on-leaf",
     "drop-subselection",
@@ -1293,6 +1382,7 @@ pub const MUTATIONS: [&str; 36] = [
     "undefined-spread",
     "fragment-cycle",
     "impossible-spread",
+    "impossible-spread-between-types",
     "unknown-directive",
     "directive-at-wrong-location",
     "repeated-directive",
@@ -1333,6 +1423,7 @@ pub fn apply(name: &str, ctx: &mut MCtx) -> Option<Mutant> {
         "undefined-spread" => ctx.undefined_spread(),
         "fragment-cycle" => ctx.fragment_cycle(),
         "impossible-spread" => ctx.impossible_spread(),
+        "impossible-spread-between-types" => ctx.impossible_spread_between_types(),
         "unknown-directive" => ctx.unknown_directive(),
         "directive-at-wrong-location" => ctx.directive_wrong_location(),
         "repeated-directive" => ctx.repeated_directive(),
@@ -1354,6 +1445,97 @@ pub fn add_unspread_clone(rng: &mut Rng, doc: &Doc) -> Option<(Doc, usize)> {
     out.defs.push(ExecDef::Frag(c));
     let idx = out.defs.len() - 1;
     Some((out, idx))
+}
+
+/// field names leading from composite type `from` to a selection set of type `to` (fields without required
+/// arguments only), shortest first; Some(vec![]) when `from` is `to`
+pub fn field_path(m: &SchemaModel, from: &str, to: &str, max: usize) -> Option<Vec<String>> {
+    let mut seen: BTreeSet<String> = BTreeSet::from([from.to_string()]);
+    let mut frontier: Vec<(String, Vec<String>)> = vec![(from.to_string(), vec![])];
+    for _ in 0..=max {
+        let mut next = vec![];
+        for (t, path) in &frontier {
+            if t == to {
+                return Some(path.clone());
+            }
+            if let Some(td) = m.type_def(t) {
+                if !matches!(td.kind, TypeKind::Object | TypeKind::Interface) {
+                    continue;
+                }
+                for f in &td.fields {
+                    let target = f.ty.unwrapped().to_string();
+                    if m.is_composite(&target) && f.args.iter().all(|a| !a.ty.is_non_null() || a.default.is_some()) && seen.insert(target.clone()) {
+                        let mut p2 = path.clone();
+                        p2.push(f.name.clone());
+                        next.push((target, p2));
+                    }
+                }
+            }
+        }
+        frontier = next;
+    }
+    None
+}
+
+/// Schema post-processing (valid by construction): interfaces implementing SEVERAL interfaces, an interface without
+/// any object implementer, objects implementing only some of the interfaces, with or without an object that implements
+/// both sides of the diamond; all reachable from the query root.
+///   interface ZiA { zfa zpeer: ZiB }   interface ZiB { zfb zback: ZiA }
+///   interface ZiC implements ZiA & ZiB   (no object implements ZiC)     interface ZiD implements ZiC & ZiA & ZiB (sometimes)
+///   type ZoA implements ZiA   type ZoB implements ZiB   type ZoAB implements ZiA & ZiB (one time out of three)
+///   interface ZiLonely { zfl }   union ZuAB = ZoA | ZoB
+pub fn add_interface_diamonds(rng: &mut Rng, schema: &mut SchemaModel) -> Vec<String> {
+    if schema.type_def("ZiA").is_some() {
+        return vec![];
+    }
+    let mut feats = vec!["schema:interface-diamond".to_string()];
+    let fd = |n: &str, ty: Ty| FieldDef { desc: None, name: n.into(), pos: P::default(), args: vec![], ty, dirs: vec![] };
+    let fa = vec![fd("zfa", Ty::named("Int")), fd("zpeer", Ty::named("ZiB"))];
+    let fb = vec![fd("zfb", Ty::named("String")), fd("zback", Ty::list(Ty::named("ZiA")))];
+    let both: Vec<FieldDef> = fa.iter().chain(fb.iter()).cloned().collect();
+    let imp = |ns: &[&str]| -> Vec<(String, P)> { ns.iter().map(|n| (n.to_string(), P::default())).collect() };
+    let mk = |kind: TypeKind, name: &str, implements: Vec<(String, P)>, fields: Vec<FieldDef>| {
+        let mut t = TypeDef::new(kind, name);
+        t.implements = implements;
+        t.fields = fields;
+        t
+    };
+    let mut new: Vec<TypeDef> = vec![
+        mk(TypeKind::Interface, "ZiA", vec![], fa.clone()),
+        mk(TypeKind::Interface, "ZiB", vec![], fb.clone()),
+        mk(TypeKind::Interface, "ZiC", imp(&["ZiA", "ZiB"]), both.iter().cloned().chain(std::iter::once(fd("zfc", Ty::named("ID")))).collect()),
+        mk(TypeKind::Object, "ZoA", imp(&["ZiA"]), fa.iter().cloned().chain(std::iter::once(fd("zoa", Ty::named("Boolean")))).collect()),
+        mk(TypeKind::Object, "ZoB", imp(&["ZiB"]), fb.clone()),
+        mk(TypeKind::Interface, "ZiLonely", vec![], vec![fd("zfl", Ty::named("Int"))]),
+    ];
+    if rng.coin() {
+        feats.push("schema:interface-implements-three".into());
+        new.push(mk(TypeKind::Interface, "ZiD", imp(&["ZiC", "ZiA", "ZiB"]), both.iter().cloned().chain([fd("zfc", Ty::named("ID")), fd("zfd", Ty::named("Int"))]).collect()));
+    }
+    if rng.chance(1, 3) {
+        feats.push("schema:diamond-with-common-object".into());
+        new.push(mk(TypeKind::Object, "ZoAB", imp(&["ZiA", "ZiB"]), both.clone()));
+    } else {
+        feats.push("schema:diamond-without-common-object".into());
+    }
+    let mut u = TypeDef::new(TypeKind::Union, "ZuAB");
+    u.members = imp(&["ZoA", "ZoB"]);
+    new.push(u);
+    let q = schema.query.clone();
+    for item in schema.doc.items.iter_mut() {
+        if let TsItem::TypeDef(t) = item {
+            if t.name == q {
+                for (n, ty) in [("zia", "ZiA"), ("zib", "ZiB"), ("zic", "ZiC"), ("zil", "ZiLonely"), ("zu", "ZuAB")] {
+                    t.fields.push(fd(n, if rng.coin() { Ty::named(ty) } else { Ty::list(Ty::non_null(Ty::named(ty))) }));
+                }
+            }
+        }
+    }
+    for t in new {
+        let at = rng.below(schema.doc.items.len() + 1);
+        schema.doc.items.insert(at.max(1), TsItem::TypeDef(t));
+    }
+    feats
 }
 
 // ------------------------------------------------------------------------------------------------
